@@ -1859,6 +1859,11 @@ def go_parse_check(ctx):
                 v = rng.choice([0, 1, 49, 50, 51, 100, 1000, 30000, 10**7, 10**9, -1, -50])
             toks += [kw, str(v)]
         cases.append((f"4k3/8/8/8/8/8/8/4K3 {side} - - 0 1", "go " + " ".join(toks) if toks else "go", side))
+    # a depth limit together with the clock, in every position of the line (fixed cases, both sides)
+    for side in "wb":
+        for g in ("go depth 30 wtime 400 btime 400", "go wtime 400 depth 30 btime 400", "go wtime 400 btime 400 depth 30", "go depth 5 btime 900 wtime 700 movestogo 10",
+                  "go winc 10 depth 3 binc 10 wtime 1000 btime 2000", "go movestogo 2 depth 40 wtime 5000 btime 3000", "go depth 1 wtime 60000 btime 60000 winc 1000 binc 1000"):
+            cases.insert(0, (f"4k3/8/8/8/8/8/8/4K3 {side} - - 0 1", g, side))
     chunks = [cases[i::8] for i in range(8)]
     res = parallel_map(lambda ch: observe_deadline([(f, g) for f, g, _ in ch]), chunks, workers=8)
     flat_cases, flat_res = [], []
@@ -1871,6 +1876,18 @@ def go_parse_check(ctx):
     for (fen, goline, side), (st, val), m in zip(flat_cases, flat_res, model):
         ctx.case("goparams:" + side + goline)
         got = "ok " + val if st == "ok" else "panic"
+        # property-level rule, independent of the model and of the order of the tokens: when the line gives the
+        # mover's own clock (and neither movetime nor infinite), the allotment is within [1, max(1, own clock - 50)]
+        tk = goline.split()[1:]
+        if st == "ok" and "movetime" not in tk and "infinite" not in tk and len(tk) % 2 == 0:
+            d = {tk[i]: tk[i + 1] for i in range(0, len(tk), 2)}
+            own = d.get("wtime" if side == "w" else "btime")
+            mm = re.search(r"millis=(-?\d+)", val)
+            if own is not None and mm and int(own) >= 0:
+                a, left = int(mm.group(1)), int(own)
+                if not (1 <= a <= max(1, left - 50)):
+                    ctx.violation("goparams-bound:" + side + ":" + goline, {"kind": "input", "lines": [f"position {fen}", goline], "engine": got,
+                                                                           "what": f"the search started by this line is allotted {a} ms; the mover's own clock shows {left} ms (allowed: 1 .. max(1, clock - 50))"})
         if canon(got) != canon(m):
             # the model is the reference for what the property demands here (own clock, margin): report as correspondence
             ctx.violation("goparams:" + side + ":" + goline, {"kind": "unproved", "correspondence": "co_goparams", "lines": [f"position {fen}", goline], "engine": got, "model": m,
